@@ -246,6 +246,64 @@ def mpf_add (pplus : Variant) (s : St) (us vs : Src) : Option St :=
     let sw := (s.obj us).exp < (s.obj vs).exp                 -- :72-78 make U the operand with the largest exponent
     some (addSameSign pplus s negate (if sw then vs else us) (if sw then us else vs))
 
+/- ------------------------------------------------------------------ mul_2exp.c / div_2exp.c -/
+
+/-- the shift arm of mul_2exp.c:98-122 / div_2exp.c:104-128 (`k` = the left-shift count, 0 < k < 64: `exp % 64` resp.
+    `64 - exp % 64`).  Both paths leave the n + 1 limbs of `up * 2^k` in rp[0, n]: operand longer than `prec` —
+    `mpn_rshift (rp + 1, up, n, 64 - k)` stores rp[1, n], then `rp[0] = cy_limb`, then rp[n] is read back
+    (`adj = rp[abs_usize] != 0`); otherwise `mpn_lshift (rp, up, n, k)` stores rp[0, n), then `rp[n] = cy_limb`.
+    Returns the state, abs_usize and adj. -/
+def shiftArm (pplus : Variant) (s : St) (x : Src) (k : Nat) : St × Nat × Nat :=
+  let abs_usize := (s.obj x).size.natAbs
+  let prec := s.r.prec + pplus
+  if abs_usize > prec then                                    -- mul_2exp.c:102 / div_2exp.c:108
+    let a := s.rd x (abs_usize - prec) prec                   -- :104-105 up += abs_usize - prec; abs_usize = prec
+    let full := toLimbs (prec + 1) (val a.1 * 2 ^ k)
+    let s := a.2.wrR 1 (full.drop 1)                          -- :109 mpn_rshift (rp + 1, up, abs_usize, …)
+    let s := s.wrR 0 (full.take 1)                            -- :111 rp[0] = cy_limb
+    let t := s.rd .r prec 1                                   -- :112 adj = rp[abs_usize] != 0 (the limb just stored: top of `full`)
+    (t.2, prec, if Mpf.topLimb full ≠ 0 then 1 else 0)
+  else
+    let a := s.rd x 0 abs_usize
+    let full := toLimbs (abs_usize + 1) (val a.1 * 2 ^ k)
+    let s := a.2.wrR 0 (full.take abs_usize)                  -- :116 mpn_lshift (rp, up, abs_usize, …)
+    let s := s.wrR abs_usize (full.drop abs_usize)            -- :117 rp[abs_usize] = cy_limb
+    (s, abs_usize, if Mpf.topLimb full ≠ 0 then 1 else 0)     -- :118 adj = cy_limb != 0
+
+/-- the whole-limb arm, mul_2exp.c:85-97 / div_2exp.c:91-103: `prec++`, cut, `if (rp != up) MPN_COPY_INCR`.  Returns state and abs_usize. -/
+def copyArm (pplus : Variant) (s : St) (x : Src) : St × Nat :=
+  let abs_usize := (s.obj x).size.natAbs
+  let prec := s.r.prec + 1 + pplus                            -- :87 prec++
+  let off := if abs_usize > prec then abs_usize - prec else 0 -- :89-93
+  let abs_usize := if abs_usize > prec then prec else abs_usize
+  (if x = .r ∧ off = 0 then s else s.copyToR 0 x off abs_usize, abs_usize)   -- :94-95
+
+/-- mpf_mul_2exp (r, u, exp), mpf/mul_2exp.c:64-125 -/
+def mpf_mul_2exp (pplus : Variant) (s : St) (x : Src) (e : Nat) : St :=
+  let usize := (s.obj x).size                                 -- mul_2exp.c:73
+  let uexp := (s.obj x).exp                                   -- :71
+  if usize = 0 then s.setSE 0 0                               -- :75-80
+  else if e % 64 = 0 then                                     -- :85
+    let q := copyArm pplus s x
+    q.1.setSE (if usize ≥ 0 then (q.2 : Int) else -(q.2 : Int)) (uexp + (e / 64 : Nat))   -- :96, :124
+  else
+    let q := shiftArm pplus s x (e % 64)
+    let n := q.2.1 + q.2.2                                    -- :121
+    q.1.setSE (if usize ≥ 0 then (n : Int) else -(n : Int)) (uexp + (e / 64 : Nat) + q.2.2)   -- :122, :124
+
+/-- mpf_div_2exp (r, u, exp), mpf/div_2exp.c:70-131 -/
+def mpf_div_2exp (pplus : Variant) (s : St) (x : Src) (e : Nat) : St :=
+  let usize := (s.obj x).size                                 -- div_2exp.c:79
+  let uexp := (s.obj x).exp                                   -- :77
+  if usize = 0 then s.setSE 0 0                               -- :81-86
+  else if e % 64 = 0 then                                     -- :91
+    let q := copyArm pplus s x
+    q.1.setSE (if usize ≥ 0 then (q.2 : Int) else -(q.2 : Int)) (uexp - (e / 64 : Nat))   -- :102, :130
+  else
+    let q := shiftArm pplus s x (64 - e % 64)
+    let n := q.2.1 + q.2.2                                    -- :127
+    q.1.setSE (if usize ≥ 0 then (n : Int) else -(n : Int)) (uexp - (e / 64 : Nat) - 1 + q.2.2)   -- :128, :130
+
 /- ------------------------------------------------------------------ what the harness prints -/
 
 /-- SIZ, EXP and the WHOLE destination block (so that a stray store inside the block is seen too) -/
